@@ -53,8 +53,8 @@ CLAIMED = {
         text='For every string the voxel-order check passes iff the upper-cased string is one of the 48 codes; for all 48x48 start/requested orientations ornt_transform succeeds and the reordered orientation is the requested one; for each of the 48 transforms and every shape and in-range index the returned matrix maps output indices to the input index apply_orientation used; the output affine spells the code; bad code / <3-D / non-4x4 raise. All 2304 pairs + oblique rotations + strings of length 0-4 are run against the implementation every run.',
         design='DESIGN.md §7 C17', note=BASE_NOTE + ' nibabel io_orientation/apply_orientation/inv_ornt_aff are parameters with executable reference versions validated by the suite; oblique affines only through predicates.'),
     'C01': dict(
-        technique='Lean 4 theorems (three-level merge is lossless for every key and grid; reversed file list follows flipped data; fill index arithmetic) + stack/merge/lookup correspondences + per-file oracle through the output affine',
-        text='For every S x T x V and every value pattern the per-key three-level merge of to_nifti(embed_meta) is proved to return at (s,t,v) what the file placed there said (convert_lookup_key and its 4-D / 3-D forms), the canonical file order is proved unique, the per-volume reversal is proved to put at output slice k the file whose pixels the flip moves there, and get_meta is proved to read the documented position (C08). On the implementation every source file of synthetic series (6 orientations + oblique, both directions, explicit / guessed ordering, shuffled adds, several voxel orders) is located through the output affine and every extracted non-filtered key compared.',
+        technique='Lean 4 theorems (three-level merge succeeds and is lossless for every key and grid; reversed file list follows flipped data; fill index arithmetic) + stack/merge/lookup correspondences + per-file oracle through the output affine',
+        text='For every S x T x V and every value pattern the per-key three-level merge of to_nifti(embed_meta) is proved to return at (s,t,v) what the file placed there said (convert_lookup_key and its 4-D / 3-D forms); that the three levels of merging cannot fail for any complete stack (T, V >= 2 where those axes exist) is proved too, so the statement holds without premise (convert_total, convert_total_4d, convert_total_3d); the canonical file order is proved unique, the per-volume reversal is proved to put at output slice k the file whose pixels the flip moves there, and get_meta is proved to read the documented position (C08). On the implementation every source file of synthetic series (6 orientations + oblique, both directions, explicit / guessed ordering, shuffled adds, several voxel orders) is located through the output affine and every extracted non-filtered key compared.',
         design='DESIGN.md §7 C01', note=BASE_NOTE + ' Composition of the per-key theorem with the stack model is by the correspondences (stack_shape, stack_history, merge, lookup), not by one end-to-end Lean theorem; extraction is ground truth here; float geometry locates voxels.'),
     'C02': dict(
         technique='Lean 4 theorems (fill index in range and injective, canonical order unique, reversal index, reorientation transform maps back for all 48 transforms and shapes) + pixel-exact oracle through the affine',
